@@ -168,6 +168,19 @@ pub fn check(c: &Case) -> CheckResult {
         }
     }
     o.class_if(nonmono, "non-monotonic-quad");
+    {
+        let mut barely = false;
+        for sp in &subs {
+            for e in &sp.elems {
+                if let Elem::Quad(a, b, cc) = e {
+                    let dd = (a.1 - 2.0 * b.1 + cc.1).abs();
+                    let t = if dd > 0.0 { (a.1 - b.1) / (a.1 - 2.0 * b.1 + cc.1) } else { -1.0 };
+                    barely |= dd > 1000.0 && t > 0.0 && t < 1.0 / 200.0;
+                }
+            }
+        }
+        o.class_if(barely, "tall-quad-with-turning-point-before-t=1/200");
+    }
     let mut level = false;
     for sp in &subs {
         for e in &sp.elems {
@@ -188,6 +201,7 @@ pub fn check(c: &Case) -> CheckResult {
 enum SegOp {
     P(POp),
     A([f32; 5]),
+    Many(Vec<POp>),
 }
 
 pub fn path_strategy(ext: f32) -> BoxedStrategy<(PathSpec, Vec<(u32, [f32; 5])>)> {
@@ -212,6 +226,15 @@ pub fn path_strategy(ext: f32) -> BoxedStrategy<(PathSpec, Vec<(u32, [f32; 5])>)
                 1 => pt().prop_map(|(x, y)| SegOp::P(POp::M(x, y))),
                 2 => Just(SegOp::P(POp::Z)),
                 2 => (near(), near(), 0.5f32..ext, -7.0f32..7.0, -7.0f32..7.0).prop_map(|(x, y, r, a, s)| SegOp::A([x, y, r, a, s])),
+                // a tall quadratic (2000..3000 units) that is *barely* not monotonic in y: its control point lies a
+                // few units beyond the start, so the turning point sits at t = 1/250..1/1000 (treating it as
+                // monotonic moves the outline by several pixels where it crosses the surface)
+                1 => (near(), near(), near(), 1000.0f32..1500.0, 1000.0f32..1500.0, prop::sample::select(vec![250.0f32, 300.0, 600.0, 1000.0]), any::<bool>()).prop_map(|(x0, cx, x, a, b, q, up)| {
+                    let (y0, y1) = if up { (a, -b) } else { (-a, b) };
+                    let d = (y1 - y0).abs() / q;
+                    let cy = if up { y0 + d } else { y0 - d };
+                    SegOp::Many(vec![POp::L(x0, y0), POp::Q(cx, cy, x, y1)])
+                }),
                 // degenerate control polygons: cusp / coincident control points
                 1 => (pt(), pt()).prop_map(|((a, b), (x, y))| SegOp::P(POp::C(a, b, a, b, x, y))),
                 1 => pt().prop_map(|(x, y)| SegOp::P(POp::Q(x, y, x, y))),
@@ -227,6 +250,7 @@ pub fn path_strategy(ext: f32) -> BoxedStrategy<(PathSpec, Vec<(u32, [f32; 5])>)
             for s in segs {
                 match s {
                     SegOp::P(op) => ops.push(op),
+                    SegOp::Many(v) => ops.extend(v),
                     SegOp::A(a) => arcs.push((ops.len() as u32, a)),
                 }
             }
